@@ -187,6 +187,66 @@ def enumerate_model(src, rep, it, writer):
     rep.extracted["deviations"] = bad
 
 
+PROBE_TEXTS = ["a\n", "\n", "a\r\nb", "a\rb", "a\x0bb", "a\x0cb", "a\u2028b", "\tx ", "   ", " a", "a ", "\u00e9\u2713\uff25", "x" * 40, "0", "m", "[31m"]
+PROBE_ATTS = [{"fg": 31}, {"bg": 44}, {"bold": True}, {"dark": True}, {"italic": True}, {"underline": True}, {"blink": True}, {"invert": True},
+              {"fg": 32, "bg": 41, "bold": True}, {"bg": 47, "underline": False}, {}]
+
+
+def concrete_probes(src, rep, it):
+    """The enumeration above leaves the text fully symbolic, so code that INSPECTS the text is an unknown atom there.  Here the
+    writer is interpreted on concrete awkward texts (line boundaries of every kind, blanks, wide and accented characters, text
+    that looks like parameters): with the SGR sequences removed the output must be exactly the text, every character of it
+    displayed with exactly the run's attributes, default state at the end."""
+    import re as _re
+    f = src.func("formatstring", "Chunk.color_str")
+    sgr_re = _re.compile("\x1b\\[([0-9;]*)m")
+    n = 0
+    bad = []
+    for atts in PROBE_ATTS:
+        want = sgr.expected_state(atts.get("fg"), atts.get("bg"), {k: v for k, v in atts.items() if k not in ("fg", "bg")})
+        for text in PROBE_TEXTS:
+            chunk = it.new("formatstring", "Chunk", text, dict(atts))
+            r = it.call1("formatstring", "Chunk.color_str", chunk)
+            if r[0] == "opaque":
+                raise AnalysisError("Chunk.color_str outside the evaluated subset on concrete text %r: %s" % (text, r[1]))
+            n += 1
+            rep.case(True)
+            if r[0] != "ok" or not isinstance(r[1], str):
+                bad.append((atts, text, "color_str gives %s" % (r,)))
+                continue
+            out = r[1]
+            shown = []
+            state = sgr.DEFAULT
+            pos = 0
+            problem = None
+            for m in sgr_re.finditer(out):
+                shown.extend((ch, state) for ch in out[pos:m.start()])
+                try:
+                    state = sgr.apply_params(state, [int(x) if x else 0 for x in m.group(1).split(";")] if m.group(1) else [])
+                except sgr.Unsupported as e:
+                    problem = "emits SGR code %s" % e
+                pos = m.end()
+            shown.extend((ch, state) for ch in out[pos:])
+            got_text = "".join(ch for ch, _ in shown)
+            if problem is None and got_text != text:
+                problem = "the characters displayed are %r, the run's text is %r" % (got_text, text)
+            if problem is None and any(st != want for _, st in shown):
+                k = [i for i, (_, st) in enumerate(shown) if st != want][0]
+                problem = "character %d (%r) is displayed with %s, the run's attributes are %s" % (k, shown[k][0], _st(shown[k][1]), _st(want))
+            if problem is None and state != sgr.DEFAULT:
+                problem = "graphic state after the run is %s, not the default" % _st(state)
+            if problem:
+                bad.append((atts, text, problem))
+    if bad:
+        atts, text, problem = bad[0]
+        rep.ob("F3-concrete-text-probes", f.where(), f.scope, "writer on concrete texts (line boundaries, blanks, wide characters, parameter look-alikes)", False,
+               "run %r with attributes %s: %s (%d of %d probes deviate)" % (text, atts, problem, len(bad), n),
+               witness={"text": text, "attributes": atts})
+    else:
+        rep.ob("F3-concrete-text-probes", f.where(), f.scope, "writer on concrete texts (line boundaries, blanks, wide characters, parameter look-alikes)", True)
+    rep.extracted["concrete_probes"] = n
+
+
 def _st(state):
     if state is None:
         return "<text never reached>"
@@ -200,7 +260,38 @@ def _printable(s):
     return s.replace("\x1b", "ESC").replace(sgr.TEXT, "<text>")
 
 
-POOL = [{}, {"fg": 31}, {"bg": 44, "bold": True}, {"fg": 31, "underline": True, "bold": False}]
+POOL = [{}, {"fg": 31}, {"bg": 44, "bold": True}, {"fg": 31, "underline": True, "bold": False}, {"fg": 31, "bold": True}, {"fg": 31, "bg": 44}]
+
+
+def _judge_multi(stream, runs):
+    """None when `stream` displays the texts of `runs` in order, each with exactly its attributes, and ends in the default state."""
+    import re as _re
+    tok = _re.compile("\x1b\\[([0-9;]*)m|(\ue000.\ue001)", _re.S)
+    state = sgr.DEFAULT
+    seen = []
+    pos = 0
+    for m in tok.finditer(stream):
+        if m.start() != pos:
+            return "emits %r, which is neither a run's text nor an SGR sequence" % stream[pos:m.start()]
+        pos = m.end()
+        if m.group(2):
+            seen.append((m.group(2), state))
+        else:
+            try:
+                state = sgr.apply_params(state, [int(x) if x else 0 for x in m.group(1).split(";")] if m.group(1) else [])
+            except sgr.Unsupported as e:
+                return "emits SGR code %s" % e
+    if pos != len(stream):
+        return "emits %r, which is neither a run's text nor an SGR sequence" % stream[pos:]
+    if [t for t, _ in seen] != [t for t, _ in runs]:
+        return "the texts displayed are %s, the runs are %s" % ([t[1] for t, _ in seen], [t[1] for t, _ in runs])
+    for (t, st), (_, a) in zip(seen, runs):
+        want = sgr.expected_state(a.get("fg"), a.get("bg"), {k: v for k, v in a.items() if k not in ("fg", "bg")})
+        if st != want:
+            return "run %s is displayed with %s, its attributes are %s" % (t[1], _st(st), _st(want))
+    if state != sgr.DEFAULT:
+        return "graphic state after the string is %s, not the default" % _st(state)
+    return None
 
 
 def joining(src, rep, it, writer):
@@ -238,19 +329,25 @@ def joining(src, rep, it, writer):
                            "str(run) is %r, its color_str is %r" % (_printable(rc[1]), _printable(exp)))
         want = "".join(parts)
         rep.case(bool(runs))
-        ok = r == ("ok", want)
-        # second call returns the memoised value: must be the same
+        # what must hold is what is DISPLAYED: every run's text, in order, each with exactly its own attributes, default state
+        # at the end, nothing else emitted.  (Byte-for-byte concatenation of the runs' strings is one way to get there, not
+        # the only one: eliding a redundant off/on pair between equal colours is fine as long as the display is the same.)
+        problem = None
+        if r[0] != "ok" or not isinstance(r[1], str):
+            problem = "str(f) gives %s" % (r,)
+        else:
+            problem = _judge_multi(r[1], [(str(t), a) for t, a in runs if t != ""])
         r2 = it.call1("formatstring", "FmtStr.__str__", obj)
-        ok2 = r2 == r
-        if not (ok and ok2):
+        if problem is None and r2 != r:
+            problem = "a second str(f) gives %r" % (r2,)
+        if problem:
             bad += 1
             if bad <= 3:
-                rep.ob("J3-str-is-concatenation-of-runs", g.where(), g.scope, "%d runs %s" % (len(runs), [a for _, a in runs]), False,
-                       "str(f) is %r; the runs' own strings concatenated in order are %r%s"
-                       % (_printable(r[1]) if r[0] == "ok" else r, _printable(want), "" if ok2 else "; a second str(f) gives %r" % (r2,)),
-                       witness={"runs": str(runs)})
+                rep.ob("J3-str-displays-every-run-with-its-own-attributes", g.where(), g.scope, "%d runs %s" % (len(runs), [a for _, a in runs]), False,
+                       "str(f) is %r: %s (the runs' own strings concatenated are %r)"
+                       % (_printable(r[1]) if r[0] == "ok" else r, problem, _printable(want)), witness={"runs": str(runs)})
     if not bad:
-        rep.ob("J3-str-is-concatenation-of-runs", g.where(), g.scope, "%d run layouts (0-3 runs, empty runs, shared/unshared attributes)" % n, True)
+        rep.ob("J3-str-displays-every-run-with-its-own-attributes", g.where(), g.scope, "%d run layouts (0-3 runs, empty runs, shared/unshared attributes)" % n, True)
     rep.ob("J1-chunk-str-is-color_str", g.where(), "formatstring:Chunk.__str__", "str(run) == color_str for every run of the layouts", True)
 
 
@@ -286,6 +383,7 @@ def check(src, rep):
     writer = Writer(src, it)
     templates = rep.guard(wrapper_templates, src, rep, it)
     rep.guard(enumerate_model, src, rep, it, writer)
+    rep.guard(concrete_probes, src, rep, it)
     rep.guard(joining, src, rep, it, writer)
     rep.guard(cache_coherence, src, rep)
     rep.floor("wrapper templates", len(templates or {}), 6)
